@@ -113,7 +113,7 @@ def check_inst(mod, run, d, tag):
     return n
 
 
-def p5_delete_stays_inside(mod, run, fnbase, tag, B):
+def p5_delete_stays_inside(mod, run, fnbase, tag, B, inlined=False):
     """P5: positional Delete(dst, len, offset) reads and writes elements 0 .. len-1 only: every index it hands to Set / Get is provably
     at most len - 1 (the element one past the array belongs to whatever is stored next)"""
     fn = mod.fn(fnbase + "Delete")
@@ -132,6 +132,18 @@ def p5_delete_stays_inside(mod, run, fnbase, tag, B):
         run.check(ok, "P5-delete-touches-only-the-array", {"fn": fn.name, "call": cal, "index": repr(idx), "set": tag},
                   Finding("P5-delete-reaches-past-the-array", fn.name, cal, "index", "%s passes the element index %r to %s at %s; it is not provably <= len - 1: the element behind the array (other data in the same buffer, or memory past an exactly sized one) is read or overwritten" % (
                       fn.name, idx, cal, loc9(c)), loc=loc9(c)))
+    if n == 0 and not inlined:
+        # the element move may have become a static helper: the same obligation on Delete with its helpers inlined
+        from ..common import with_helpers_inlined
+        from ..core import World
+        from ..bounds import Bounds
+        keep = lambda h: not (h.name.endswith("Set") or h.name.endswith("Get") or h.name.endswith("SetHalf") or h.name.endswith("SetIncr"))
+        if tag == "library": m2, f2 = with_helpers_inlined(mod, fn, "ndebug", only=keep)
+        else:
+            from ..common import local_helpers_of
+            plan = local_helpers_of(mod, fn, keep)
+            m2 = Module(build_module("packed-" + tag, [os.path.join(VERIF, "witness", "packed_%s.c" % tag)], "ndebug", inline=tuple(plan))) if plan else None
+        if m2 is not None: return p5_delete_stays_inside(m2, run, fnbase, tag, Bounds(World(m2)), inlined=True)
     if n == 0: raise AnalysisBroken("%sDelete: no Set/Get call found" % fnbase)
     return n
 
